@@ -152,6 +152,13 @@ class C02(PropBase):
         m = sess.guarded(sess.call, step, typelib.marshal, v, t=T)
         rec["enc"] = (e1, e2, e3)
         rec["marshal"] = m
+        # the hint is optional: omitted, it is the value's own class
+        if type(v).__module__ != "builtins" or isinstance(v, (bytes, bytearray, str, int, float, bool)):
+            cls = type(v)
+            o1 = sess.guarded(sess.call, step, typelib.encode, v, **kw_e)
+            o2 = sess.guarded(sess.call, step, typelib.encode, v, t=cls, **kw_e)
+            if o1.canon() != o2.canon():
+                rec["viol"].append(("encode-without-hint-differs", {"side": "enc", "cls": cls.__name__, "without": repr(o1)[:140], "with_class": repr(o2)[:140]}))
         rec["T"] = T
         rec["v"] = v
         dec_out = None
